@@ -8,7 +8,6 @@ import (
 	"os"
 	"path/filepath"
 	"reflect"
-	"sort"
 	"strconv"
 	"strings"
 	"sync"
@@ -213,9 +212,7 @@ func normText(o drive.Out) string {
 	if o.Nil {
 		return ""
 	}
-	cl := clause.Split(o.Err)
-	sort.Strings(cl)
-	return strings.Join(cl, clause.Sep)
+	return normClauses(o.Err)
 }
 
 // ---- cache implementations installed through the public interface
